@@ -66,6 +66,12 @@ CHECKS["C20"] = dict(level="exploration",
    technique="schema-driven operation generation, metamorphic reformulation testing, shape + projection oracles at the DataSource.Load boundary",
    design_ref="DESIGN.md §6 C20")
 
+CHECKS["C01"] = dict(level="exploration",
+   text="Runtime monitoring of the real ExecutionEngine over generated federated configurations that are correct by construction (2-3 subgraphs; keys, single-owner and @shareable fields, value types, @requires, @provides, interfaces and unions over entities, lookup/list/abstract root fields, mutations; features individually switchable). Subgraphs are in-process semantic GraphQL servers (independent parser/validator/executor) over one hash-defined universe, so every value identifies the field and entity that produced it. On every generated valid operation: gateway data == monolithic reference execution of the supergraph, errors empty on both sides, planning never fails, every subgraph request is valid for that subgraph's schema with coercible variables and selects only fields the subgraph owns (or keys / provided / required inputs; @requires values are computed only from what the representation carries). Held on the executions observed.",
+   note="Trusted: the layout generator's composition conventions (taken from the repository's composed config and federation fixtures), gqlparser, the reference executor / coercer / universe. Not generated: @interfaceObject, @override, @inaccessible, non-resolvable or compound keys. Clean universes only.",
+   technique="differential runtime monitor: real gateway vs reference executor over semantic subgraphs, request validation and ownership monitor at the RoundTripper boundary",
+   design_ref="DESIGN.md §6 C01, Appendix A")
+
 NOT_YET = {
 }
 
